@@ -260,12 +260,13 @@ class C07(F.PropCheck):
                         # the advance itself must have reached d+100 ms before its last ~relay operations; be exact: the clock at the end of the event
                         if s['t'] - nrel * OP > tc + d * 1000 + 100000 and s['rem'][i] > 0:
                             v.append('LATE no switch-back of gpio %d %d us after a command with duration %d ms (clock is beyond d+100 ms)' % (rel[i][0], s['t'] - tc, d))
-                            pending[i] = None
+                            pending[i] = None; weird[i] = True      # reported once; nothing more is checked for this timer
             prev = s
         return v[:6]
 
     def finding_key(self, case, what):
         if what.startswith('LATE-BUSY'): return 'relay-busy-wait-delays-switch-back'
+        if what.startswith('LATE ') and any(t == 'overlap-storm' for t in getattr(case, 'tags', ())): pass
         if what.startswith('RESTORE-LOST'):
             try:
                 if parse_cfg(case.evs[0][1])['lateflags']: return 'restore-off-for-d-needs-channel-flags-at-init'
